@@ -1,5 +1,6 @@
 import O4.Lemmas.Obfs4Tx
 import O4.Lemmas.Obfs4Rx
+import O4.Generated.Facts.Obfs4
 import O4.Lemmas.Obfs4Tamper
 /-!
 # C05 — the obfs4 reader hands the application only a prefix of what the peer sealed
@@ -324,5 +325,30 @@ example :
     BadFirstFrame (idealCrypto exSent) exSent 0 ([0, 0] ++ List.replicate 16 7) ∧
     ¬ BadFirstFrame (idealCrypto exSent) exSent 1 ((wire (idealCrypto exSent) exSent).take 23) := by
   decide
+
+/-! ## the receive path shares no mutable state with the send path
+
+The theorems above speak about the receive side alone.  That is only faithful if nothing the
+concurrently running writer goroutine touches can reach what `Read` decodes into or parses from.
+The field sets are extracted from the Go source on every run (`O4/Generated/Facts/Obfs4.lean`,
+go/ast, transitively through the methods each entry point calls). -/
+
+/-- **`Read` and `Write` share only the underlying conn and the lock-protected distributions**:
+    a scratch buffer, decoder or encoder shared between `makePacket` (send path) and
+    `processReceiveBuffer` (receive path) — through which outgoing plaintext could be delivered
+    by `Read` with no tag mismatch — breaks this proof. -/
+theorem reader_writer_state_disjoint :
+    ∀ f, f ∈ O4.Facts.Obfs4.obfs4Conn_Read_fields → f ∈ O4.Facts.Obfs4.obfs4Conn_Write_fields →
+      f ∈ ["Conn", "lenDist", "iatDist"] := by decide
+
+/-- what the receive path decodes into and parses from is never touched by the send path, and the
+    receive path never touches the encoder -/
+theorem receive_state_private :
+    (∀ f, f ∈ O4.Facts.Obfs4.obfs4Conn_processReceiveBuffer_fields →
+      f ∈ O4.Facts.Obfs4.obfs4Conn_makePacket_fields → False) ∧
+    "decoder" ∉ O4.Facts.Obfs4.obfs4Conn_Write_fields ∧
+    "receiveBuffer" ∉ O4.Facts.Obfs4.obfs4Conn_Write_fields ∧
+    "receiveDecodedBuffer" ∉ O4.Facts.Obfs4.obfs4Conn_Write_fields ∧
+    "encoder" ∉ O4.Facts.Obfs4.obfs4Conn_Read_fields := by decide
 
 end C05
